@@ -256,7 +256,7 @@ def obs_arg(rng, name, rows):
             if isinstance(rs, np.ndarray) and rs.ndim == 0:
                 rs = int(rs)
             has = rng.random() < 0.5
-            cs = gen.gen_slice(rng, max(lens, default=0)) if has else None
+            cs = gen.gen_slice(rng, max(lens, default=0), far=True) if has else None
             if has and rng.random() < 0.3 and max(lens, default=0):
                 cs = rng.randint(-max(lens), max(lens) - 1)      # an integer column (refused by the model if some selected row is too short)
             try:
@@ -394,7 +394,7 @@ def gen_program(rng, tier="quick", allow_hazard=False, nsteps=None, init_rows=No
             if isinstance(rs, np.ndarray) and rs.ndim == 0:
                 rs = int(rs)
             has = rng.random() < 0.55
-            cs = gen.gen_slice(rng, maxl) if has else None
+            cs = gen.gen_slice(rng, maxl, far=True) if has else None
             if (model.is_int(rs) or rs is Ellipsis) and not has:
                 continue    # an integer row is a numpy array (an observation), and a[...] is an alias, not a selection
             try:
@@ -526,7 +526,7 @@ def gen_program(rng, tier="quick", allow_hazard=False, nsteps=None, init_rows=No
                 if isinstance(rs, np.ndarray) and rs.ndim == 0:
                     rs = int(rs)
                 has = rng.random() < 0.4
-                cs = gen.gen_slice(rng, maxl) if has else None
+                cs = gen.gen_slice(rng, maxl, far=True) if has else None
                 try:
                     k_, cells = model.select_cells([len(r) for r in U], rs, cs, has)
                     break
